@@ -3,7 +3,7 @@
 import json, os, sys
 HERE = os.path.dirname(os.path.abspath(__file__))
 sys.path.insert(0, HERE)
-from manifest_data import CLAIMED, NOT_APPLICABLE_REASONS, FIX_COMMITS
+from manifest_data import CLAIMED, NOT_APPLICABLE_REASONS, FIX_COMMITS, ADDENDA
 ALL = [f"C{i:02d}" for i in range(1, 21)]
 import re
 def notes_level_text(pid):
@@ -51,6 +51,8 @@ for pid in ALL:
     if pid not in CLAIMED:
         continue
     c = CLAIMED[pid]
+    if pid in ADDENDA:
+        c["text"] = c["text"] + " " + ADDENDA[pid]
     if kernel_text(pid):
         c["text"] = c["text"] + kernel_text(pid)
         c.setdefault("technique", "machine-checked proof in Coq 8.16.1 about a hand-written Gallina model + differential correspondence run against the implementation")
